@@ -37,6 +37,38 @@ SPECIAL = [
 ]
 
 
+# unit-rule cycles WITH EXITS (a member of the cycle has a second unit alternative / the cycle is entered from several
+# sides): what a variable inherits must not depend on the order in which `for A in V` visits the cycle
+UNIT_CYCLES = [
+    [("S", "PdT"), ("P", "Q"), ("P", "T"), ("P", "a"), ("Q", "P"), ("Q", "b"), ("T", "c")],
+    [("S", "QQ"), ("P", "Q"), ("P", "T"), ("Q", "P"), ("T", "c")],
+    [("S", "PQ"), ("P", "Q"), ("P", "T"), ("Q", "P"), ("Q", "U"), ("T", "c"), ("U", "d")],
+    [("S", "PP"), ("P", "Q"), ("Q", "T"), ("T", "P"), ("T", "U"), ("U", "d")],
+    [("S", "P"), ("S", "aQ"), ("P", "Q"), ("Q", "T"), ("Q", "S"), ("T", "P"), ("T", "b")],
+    [("S", "QbT"), ("P", "Q"), ("Q", "T"), ("T", "Q"), ("T", "P"), ("P", "U"), ("U", "a"), ("U", "")],
+]
+# right-hand sides of 5-7 symbols: cfg_make_rules_of_length_two has to chain three and more fresh variables
+LONG_RHS = [
+    [("S", "aSbSc"), ("S", "d")],
+    [("S", "abAba"), ("A", "aAbAbAa"), ("A", "b")],
+    [("S", "AbAbAb"), ("A", "a"), ("A", "")],
+    [("S", "aAbBcS"), ("S", ""), ("A", "aaaaa"), ("B", "A"), ("B", "bSbSb")],
+]
+
+
+def unit_cycle_srcs(rng, count):
+    """the cycle grammars with the roles P, Q, T, U played by the letters A-D in a random assignment (the set order
+    of the variables follows their names)"""
+    out = []
+    for i in range(count):
+        rules = UNIT_CYCLES[i % len(UNIT_CYCLES)]
+        perm = list("ABCD")
+        rng.shuffle(perm)
+        m = dict(zip("PQTU", perm))
+        out.append({"kind": "cfg_rules", "rules": [[m.get(l, l), "".join(m.get(c, c) for c in r)] for l, r in rules]})
+    return out
+
+
 def build(src):
     if src["kind"] == "cfg_rules":
         vn = U.VAR_NAME_POOLS[src["vnames"]] if src.get("vnames") is not None else None
